@@ -12,6 +12,7 @@ package main
 import (
 	"bytes"
 	"fmt"
+	"os"
 	"sort"
 	"strings"
 
@@ -254,6 +255,9 @@ func (v *env) runBlock(o *hx.Out, k int, plans []txPlan) {
 		}
 		o.Line("tx | "+planText(p), fmt.Sprintf("%s ev %s", st, eventsText(ev)))
 		realHalt := aer.VMState == vmstate.Halt
+		if os.Getenv("VERIF_EXEC_DEBUG") != "" {
+			fmt.Fprintf(os.Stderr, "case %d tx %d: %s %q\n", k, i, aer.VMState, aer.FaultException)
+		}
 		if realHalt {
 			o.Count("result:HALT")
 		} else {
@@ -378,7 +382,7 @@ func main() {
 	o := hx.NewOut(f.Out)
 	defer o.Close()
 	corp := corpus()
-	n := f.N(len(corp)+260, len(corp)+6000)
+	n := f.N(len(corp)+500, len(corp)+8000)
 	for k := 0; k < n; k++ {
 		if !f.Want(k) {
 			continue
